@@ -132,6 +132,20 @@ func rewriteParentRef(sp *spec.Swagger, key string, ref spec.Ref) error {
 	case *interface{}:
 		*container = spec.Schema{SchemaProps: spec.SchemaProps{Ref: ref}}
 
+	case *spec.Schema:
+		// NOTE: the only schema held directly by its parent schema, as a pointer, is "not"
+		if entry != "not" || container.Not == nil {
+			return ErrUnhandledParentRewrite(key, pvalue)
+		}
+		*container.Not = spec.Schema{SchemaProps: spec.SchemaProps{Ref: ref}}
+
+	case spec.Schema:
+		// same as above, the parent being reached by value (e.g. as a map entry): rewrite through the pointer it holds
+		if entry != "not" || container.Not == nil {
+			return ErrUnhandledParentRewrite(key, pvalue)
+		}
+		*container.Not = spec.Schema{SchemaProps: spec.SchemaProps{Ref: ref}}
+
 	// NOTE: can't have case *spec.SchemaOrBool = parent in this case is *Schema
 
 	default:
